@@ -9,11 +9,11 @@ BASE = dict(NRes=2, NClients=3, Forms="<- AllForms", FormStorable="<- StorableTa
             Kinds={"get", "range", "head"}, Conds={"none", "inm", "ims", "bad"})
 
 
-def fam(name, depth=30, backend="memory", genforms="AllForms", genvals=None, bodylen=256, limit=0, shards=0, **over):
+def fam(name, depth=30, backend="memory", genforms="AllForms", genvals=None, bodylen=256, limit=0, shards=0, chunked=False, **over):
     c = dict(BASE)
     c.update(over)
     return dict(name=name, consts=c, depth=depth, backend=backend, genforms=genforms, genvals=genvals or ALLVALS, bodylen=bodylen,
-                limit=limit, shards=shards)
+                limit=limit, shards=shards, chunked=chunked)
 
 
 def policy_families():
@@ -33,6 +33,9 @@ def flight_families():
                      genvals={"etag", "none"}, MaxX=10))
     f.append(fam("px_memory_flights_bigbody", depth=30, genforms="FlightForms", NRes=1, Kinds={"get", "range"}, Conds={"none"},
                  genvals={"both"}, MaxX=10, bodylen=1 << 20))
+    # a streamed 8 MiB body on the file backend: leader and followers are still copying while the others finish
+    f.append(fam("px_file_flights_streamed", backend="file", depth=24, genforms="FlightForms", NRes=1, Kinds={"get"}, Conds={"none"},
+                 genvals={"etag"}, MaxX=10, bodylen=8 << 20, chunked=True))
     return f
 
 
@@ -80,7 +83,7 @@ def run_family(f, num, seed, keep=None):
 def driver_config(f):
     c = f["consts"]
     return {"backend": f["backend"], "ignoreCC": c["IgnoreCC"], "forceDefault": c["ForceDefault"], "defaultAge": c["DefaultAge"],
-            "bodyLen": f["bodylen"], "emptyBody": f["bodylen"] == 0, "limitBytes": f.get("limit", 0), "shards": f.get("shards", 0), "retry416": c.get("Retry416", False), "watchdogMs": 4000}
+            "bodyLen": f["bodylen"], "emptyBody": f["bodylen"] == 0, "limitBytes": f.get("limit", 0), "shards": f.get("shards", 0), "chunked": f.get("chunked", False), "retry416": c.get("Retry416", False), "watchdogMs": 4000}
 
 
 def replay_and_validate(f, hists, inp=None):
